@@ -202,6 +202,9 @@ func runMethods(t *testing.T, sc *scen.Scenario, round string) bool {
 		if m.Pass == 2 {
 			cls = append(cls, "zero-valued-scalar-arguments")
 		}
+		if m.Pass == 3 {
+			cls = append(cls, "same-method-from-4-goroutines-at-once")
+		}
 		run.Case(true, evid.Hash("method", m.Function, sc.Methods.Seed, sc.Methods.Invert, m.Pass), cls...)
 		if m.OK {
 			continue
